@@ -120,6 +120,22 @@ CHECKS.update({
     ),
 })
 
+CHECKS.update({
+    "C07": (
+        "exploration",
+        "runtime monitor: real DualAverage / Adam / initial search (hook) vs recurrence, metamorphic monotonicity and re-measured bracket; closed-loop statistic",
+        "Open loop: the real DualAverage and Adam objects are driven with seven families of acceptance sequences (all-0, all-1, alternating, "
+        "uniform, random walk, long extreme runs, realistic; up to 2000 updates) under random options: agreement with the documented recurrence, "
+        "0 < step <= max_step_size and finite after every update, metamorphic monotonicity (pointwise larger acceptance never gives a smaller "
+        "later current or averaged step), Adam moves up exactly when the bias-corrected smoothed acceptance exceeds the target. Initial search: "
+        "the real Strategy::init runs with scripted momentum; the bracket (acceptance at the final step on one side of the target, at half / double "
+        "on the other) is re-measured with the real integrator, fall-backs are only accepted if a trial on the search path really fails. Closed "
+        "loop: adapted chains on Gaussians, post-warmup mean symmetric acceptance within 0.3 + 6 se of the target, confirmation on fresh seeds.",
+        "The closed-loop oracle is statistical (tolerance calibrated on the unchanged tree, confirmation stage); it detects gross mis-steering only.",
+        "DESIGN.md §3 C07",
+    ),
+})
+
 NOT_YET = {}
 
 
